@@ -33,7 +33,11 @@ RULE = ('Designs: conditions C in 1..3 x every composition of the repetition cou
         'correlated Gaussians with condition offsets), each fill also multiplied by 1e-5 and 1e+4 '
         '(residuals: both fills, both scales, every form / dof / method; datasets: every design, P, '
         'family, form, dof None/scalar/list, method: Gaussian fill x 1e-5 in the first and last row '
-        'order, x 1e+4 in the last, integer fill x 1e-5 in the first).  One evaluation = one library call judged '
+        'order, x 1e+4 in the last, integer fill x 1e-5 in the first); extreme scales 1e-9, 1e-12, '
+        '1e+8 x offset menu (noise centred per condition + column / condition means of 0, ~1, ~10 channel '
+        'sd): residuals all 9 pairs x {single, list with dof list, 3-D stack} x 4 methods for every n, P; '
+        'datasets 7 pairs (1e-9, 1e-12 x all offsets; 1e+8 x 10 sd) dealt round-robin over P, every '
+        'design, family, {single, list with dof list}, 4 methods, first row order.  One evaluation = one library call judged '
         '(cov against the reference / convex-combination structure, all deviations relative to the '
         'magnitude of the reference covariance; prec against prec @ cov == I; one measurement-vs-'
         'unbalanced agreement; or, for scaled fills, one scale-equivariance comparison '
@@ -71,9 +75,9 @@ TOLERANCES = {'covariance entries (relative to max |reference covariance|, floor
               'inputs unchanged': 'bit-identical'}
 BOUNDS = {
     'quick': {'n_cond': [1, 2, 3], 'n_obs_max': 7, 'channels': [1, 2, 3, 5], 'orders': 'label sequences',
-              'fills': {'int': 1, 'gauss': 1}, 'fill_scales': [1, 1e-5, 1e4], 'alphabet_residuals_nP_max': 8, 'alphabet_datasets_nP_max': 4},
+              'fills': {'int': 1, 'gauss': 1}, 'fill_scales': [1, 1e-5, 1e4], 'extreme_scales_x_offsets': [[1e-9, 1e-12, 1e8], [0, 1, 10]], 'alphabet_residuals_nP_max': 8, 'alphabet_datasets_nP_max': 4},
     'thorough': {'n_cond': [1, 2, 3], 'n_obs_max': 7, 'channels': [1, 2, 3, 5], 'orders': 'all permutations',
-                 'fills': {'int': 2, 'gauss': 2}, 'fill_scales': [1, 1e-5, 1e4], 'alphabet_residuals_nP_max': 10, 'alphabet_datasets_nP_max': 6},
+                 'fills': {'int': 2, 'gauss': 2}, 'fill_scales': [1, 1e-5, 1e4], 'extreme_scales_x_offsets': [[1e-9, 1e-12, 1e8], [0, 1, 10]], 'alphabet_residuals_nP_max': 10, 'alphabet_datasets_nP_max': 6},
 }
 
 PS = [1, 2, 3, 5]
@@ -82,6 +86,8 @@ N_MAX = 7
 ALPHA = (0.0, 1.0, 2.0)
 ORDER_CHUNK = 15
 SCALES = [1e-5, 1e4]      # value scales of the fills besides 1 (volts / tesla-like data; large counts)
+XSCALES = [1e-9, 1e-12, 1e8]   # extreme scales (SI-unit MEG / EEG), combined with the offset menu
+OFFSETS = [0, 1, 10]           # column / condition means in units of the channel's noise sd
 
 
 # ------------------------------------------------------------------------------ enumeration
@@ -207,6 +213,14 @@ def run_shard(shard, ctx):
                 for m in METHODS:
                     run_case({'family': 'residuals', 'reps': [n], 'P': p, 'values': values,
                               'method': m, 'dof': dofk, 'form': 'tuple'}, ctx)
+        # extreme scales x offset menu (Gaussian fill 0): centred / means ~ 1 sd / ~ 10 sd
+        for scale in XSCALES:
+            for off in OFFSETS:
+                v = {'kind': 'gauss', 'fill': 0, 'offset': off, 'scale': scale}
+                for form, dofk in (('single', 'none'), ('list', 'list'), ('stack3d', 'none')):
+                    for m in METHODS:
+                        run_case({'family': 'residuals', 'reps': [n], 'P': p, 'values': v,
+                                  'method': m, 'dof': dofk, 'form': form}, ctx)
         if n == 1:
             _reject_cases(p, ctx)
     elif kind == 'res_alpha':
@@ -247,6 +261,19 @@ def run_shard(shard, ctx):
                         plan.append((values, 1e-5, last, 'str'))
                 else:
                     plan.append((values, 1e-5, first, 'str'))
+            # extreme scales x offset menu (Gaussian fill 0, first row order): the 7 (scale, offset)
+            # pairs are dealt round-robin over the channel counts, every design sees all of them
+            pairs = [(sc, off) for sc in XSCALES[:2] for off in OFFSETS] + [(XSCALES[2], OFFSETS[-1])]
+            for k, (scale, off) in enumerate(pairs):
+                if PS[k % len(PS)] != p:
+                    continue
+                v = {'kind': 'gauss', 'fill': 0, 'offset': off, 'scale': scale}
+                for family in (('unbalanced', 'measurements') if balanced else ('unbalanced',)):
+                    for form, dofk in (('single', 'none'), ('list', 'list')):
+                        for m in METHODS:
+                            run_case({'family': family, 'reps': reps, 'perm': first, 'P': p,
+                                      'naming': 'int', 'values': v,
+                                      'method': m, 'dof': dofk, 'form': form}, ctx)
             # further container forms of two datasets: tuple, 1-D object ndarray (first row order,
             # Gaussian fills, unscaled)
             for values in value_kinds(tier):
@@ -297,12 +324,13 @@ def _names(naming, k):
 
 def _matrix(values, reps, p, seed, role):
     """n x P float array in canonical (by-condition) row order (fresh copy)"""
-    x = _matrix_cached(values['kind'], values.get('idx', values.get('fill')), tuple(reps), p, seed, role)
+    x = _matrix_cached(values['kind'], values.get('idx', values.get('fill')), tuple(reps), p, seed, role,
+                       values.get('offset'))
     return x * float(values.get('scale', 1.0))
 
 
 @functools.lru_cache(maxsize=4096)
-def _matrix_cached(vkind, vnum, reps, p, seed, role):
+def _matrix_cached(vkind, vnum, reps, p, seed, role, offset=None):
     values = {'kind': vkind, 'idx': vnum, 'fill': vnum}
     n = sum(reps)
     lab = canon_labels(reps)
@@ -321,6 +349,20 @@ def _matrix_cached(vkind, vnum, reps, p, seed, role):
         x = g.integers(-2, 3, size=(n, p)).astype(float)
         x += np.array(lab, dtype=float)[:, None]
         return x
+    if kind == 'gauss' and offset is not None:
+        # offset menu: noise centred within every condition + offset x (channel sd) x u[cond, channel],
+        # |u| in [0.7, 1.3]: column / condition means of 0, ~1 or ~10 standard deviations
+        g = rng_for(seed, 'c14gaussoff', values['fill'], p, role, len(reps), *reps)
+        z = g.normal(size=(n, p))
+        mix = np.eye(p) + 0.5 * g.normal(size=(p, p))
+        noise = (z @ mix) * g.uniform(0.5, 2.0, size=p)
+        labs = np.array(lab)
+        for c in range(len(reps)):
+            noise[labs == c] -= noise[labs == c].mean(axis=0, keepdims=True)
+        sd = np.sqrt(np.mean(noise ** 2, axis=0))
+        sd = np.where(sd > 0, sd, 1.0)
+        u = g.uniform(0.7, 1.3, size=(len(reps), p)) * g.choice([-1.0, 1.0], size=(len(reps), p))
+        return noise + float(offset) * sd * u[lab]
     if kind == 'gauss':
         z = g.normal(size=(n, p))
         mix = np.eye(p) + 0.5 * g.normal(size=(p, p))
